@@ -263,6 +263,7 @@ class DatasetIteration(DatasetBase):
                     split=split,
                     process_record=None,  # otherwise unknown tensorspec
                     shards=shards,
+                    custom_metadata_type_limit=custom_metadata_type_limit,
                     shard_filter=shard_filter,
                     repeat=repeat,
                     file_parallelism=file_parallelism or 1,
